@@ -30,7 +30,7 @@ func (g *Generator) makeTypeMatch() {
 					f2.CanAssign = true
 				} else if conv {
 					f2.IsConv = true
-					f2.Type = types.TypeString(f2.typ, g.qualifier)
+					f2.Type = convTypeName(types.TypeString(f2.typ, g.qualifier))
 				}
 			}
 
@@ -44,11 +44,19 @@ func (g *Generator) makeTypeMatch() {
 					f1.CanAssign = true
 				} else if convback {
 					f1.IsConv = true
-					f1.Type = types.TypeString(f1.typ, g.qualifier)
+					f1.Type = convTypeName(types.TypeString(f1.typ, g.qualifier))
 				}
 			}
 		}
 	}
+}
+
+// convTypeName is the type as it has to be written in a conversion T(x): `*T`, `<-chan T`, `func()` need parentheses
+func convTypeName(name string) string {
+	if strings.HasPrefix(name, "*") || strings.HasPrefix(name, "<-") || strings.HasPrefix(name, "func") {
+		return "(" + name + ")"
+	}
+	return name
 }
 
 func canNameMatch(f1, f2 *Field, tagMap map[string]string, ignoreCase bool) bool {
